@@ -285,7 +285,7 @@ func c18HTTPRunInner(c *c18Case) (string, string) {
 			}
 		case "accept":
 			if !accepted {
-				return "good-credentials-rejected", fmt.Sprintf("variant %s carries u:p but AuthFunc did not accept; events %v, response %q", v.Name, evs, status)
+				return "good-credentials-not-accepted", fmt.Sprintf("variant %s carries u:p but AuthFunc did not accept; events %v, response %q", v.Name, evs, status)
 			}
 		}
 		if !served {
